@@ -184,6 +184,18 @@ def generate(ctx):
         recs.append(r)
         if i < n_cls // 2:
             add_class(r, p)
+    # bound re-tightening inside a failing branch and tp difference-logic cycles: always with the member whose disjuncts
+    # state their (independent) statements in another order
+    n_rt, n_tp = (70, 180) if not ctx.thorough else (1200, 3000)
+    for i in range(n_rt + n_tp):
+        p, M = g.retighten() if i < n_rt else g.tpcycle()
+        r = rec_from_problem(p, 'retighten' if i < n_rt else 'tpcycle', 'planted' if M else 'near', truth='S' if M else None, model=M)
+        recs.append(r)
+        gid[0] += 1
+        r['group'] = gid[0]
+        r['transform'] = 'base'
+        for name, q, style in g.variants(p, 3, force=('reorder-inner',)):
+            recs.append(rec_from_problem(q, r['family'], 'class', truth=r['truth'], group=gid[0], transform=name, style=style))
     for i in range(n_sched):
         s = S.any()
         p = {'decls': s['decls'], 'stmts': s['stmts']}
